@@ -23,6 +23,8 @@ What is a theorem here:
 * `SetSlot` on a cached mini-merkle array equals a full rebuild over the updated
   slots (`setSlot_eq_build`, `cached_update_eq_rebuild`): patching never makes a
   hash depend on how a node was arrived at;
+* in the model, closing and reopening right after a successful save of a new
+  version is the identity on the state (`reopen_after_save_identity`);
 * export followed by import into a fresh importer reproduces the very same tree
   value, hence the same hash and contents — for every well-formed tree with
   non-empty keys (`export_import_roundtrip`), in particular for every retained
@@ -38,7 +40,7 @@ identical (version, hash) answers everywhere and export→import equality, and
 the Lean model recomputes every printed root hash from the history alone.
 Node (de)serialization is not modelled.
 -/
-import GnoVerif.Proofs.C24Keys
+import GnoVerif.Proofs.C24Reopen
 import GnoVerif.Proofs.C24Merkle
 
 namespace GnoVerif.C24
@@ -93,6 +95,25 @@ theorem cached_update_eq_rebuild (H : Bytes → Hash) (B : Nat) (hB : 1 ≤ B) (
   congr 1
   simp only [padSlots, List.length_set]
   rw [List.set_append_left _ _ hpos]
+
+/-! ## reopening between versions -/
+
+/-- in every reachable state, closing and reopening the tree right after a
+successful `SaveVersion` of a new version gives back exactly the same state
+(working tree, rollback target, size, version, retained versions) — so every
+later hash is the same with or without the reopen.  (Model level: the reload
+here is a lookup of an immutable value; that the REAL reload, which re-reads
+serialized nodes and their cached child hashes, agrees is checked by the
+differential run in the `reopen` configurations.) -/
+theorem reopen_after_save_identity {B : Nat} (hB : 4 ≤ B) (hashOf : Tree → Bytes) (ops : List MT.Op) :
+    let m := MT.run B hashOf ops
+    m.poisoned = false → m.lookup (m.version + 1) = none →
+    MT.run B hashOf (ops ++ [.save, .reopen]) = MT.run B hashOf (ops ++ [.save]) := by
+  intro m hnp hl
+  obtain ⟨hi, hc⟩ := MT.run_cont hB hashOf ops
+  have h := (MT.reopen_after_save hashOf hi hc hnp hl).2
+  simp only [MT.run, List.foldl_append, List.foldl_cons, List.foldl_nil, MT.apply]
+  exact congrArg Prod.fst h
 
 /-! ## export → import -/
 
